@@ -97,7 +97,7 @@ def extra(report, env):
             r = p.parse(text % code)
             if r['error'] is None and len(fails) < 5:
                 fails.append({'formula': text % code, 'detail': 'an error in a tested condition must yield that error, got %r' % (r,)})
-    for v in [1, -1, 2, 0, 1.5, -1.5, -2.5, -0.5, 2.5, 1000, 7.9, -7.9]:
+    for v in [1, -1, 2, 0, 1.5, -1.5, -2.5, -0.5, 2.5, 1000, 7.9, -7.9, 2 ** 53 + 1, 2 ** 53 + 2, -(2 ** 53 + 1), 2 ** 60 + 1, 10 ** 20 + 1, 10 ** 20, 9007199254740993.0]:
         p.set_variable('va', v)
         cases += 1
         e, o = p.parse('ISEVEN(va)'), p.parse('ISODD(va)')
